@@ -31,7 +31,7 @@ impl Property for C36 {
         Meta {
             id: "C36",
             level: "exploration",
-            rule: "one evaluation = sign with an end-entity certificate of the PKI pool (validity window W: past 2020-2021 / current 2024-2036 / future 2040-2041) while the simulated TSA peer (Signer::send_timestamp_request) answers with a real RFC 3161 token made by `openssl ts -reply` - honest, over a different message, with one seeded byte flipped inside TSTInfo or inside the CMS signature value, from a TSA chaining to an untrusted root - or with no token; then validate under a simulated clock (hook H5) set before / inside / after W and far in the future. 'Usable token' (imprint over the accompanied signature and CMS signature verifies) holds by construction for honest / untrusted-TSA tokens and fails by construction for the others; `openssl ts -verify` is run as a cross-check and disagreements are counted. Oracle (implications only): token present and not usable => the reported signing time is absent and a timeStamp.{mismatch,untrusted,outsideValidity,malformed} code is reported; validation clock outside W and state Valid/Trusted => a usable token exists and its genTime is inside W. Distinct = (certificate window, peer behaviour, flip position class, clock)",
+            rule: "one evaluation = sign with an end-entity certificate of the PKI pool (validity window W: past 2020-2021 / current 2024-2036 / future 2040-2041) while the simulated TSA peer (Signer::send_timestamp_request) answers with a real RFC 3161 token made by `openssl ts -reply` - honest, over a different message, with one seeded byte flipped inside TSTInfo or inside the CMS signature value, from a TSA chaining to an untrusted root - or with no token; the TSA signs its token with sha256 (mostly), sha1, sha224, sha384 or sha512; then validate under a simulated clock (hook H5) set before / inside / after W and far in the future. 'Usable token' (imprint over the accompanied signature and CMS signature verifies) holds by construction for honest / untrusted-TSA tokens and fails by construction for the others; `openssl ts -verify` is run as a cross-check and disagreements are counted. Oracle (implications only): token present and not usable => the reported signing time is absent and a timeStamp.{mismatch,untrusted,outsideValidity,malformed} code is reported; validation clock outside W and state Valid/Trusted => a usable token exists and its genTime is inside W. Distinct = (certificate window, peer behaviour, flip position class, clock)",
             assumptions: &["genTime of a token is the real time at which openssl made it; the three certificate windows are years apart so the classification does not depend on the day the check runs (valid until 2036)", "the converse (a usable in-window token makes an expired certificate acceptable) is counted, not required"],
             real: &["COSE signing with time-stamp embedding, time_stamp::verify, certificate_profile validity-at-time, trust checks"],
             stubbed: &["wall clock (simulated)", "TSA server (scripted peer emitting real tokens)"],
@@ -67,6 +67,9 @@ impl Property for C36 {
                 5 | 6 => Tsa::Flipped(r.next_u64()),
                 _ => Tsa::Untrusted,
             };
+            // the TSA's own signature digest: mostly sha256, now and then one the validator may
+            // have no verifier for
+            let tsa_digest = *r.pick(&["sha256", "sha256", "sha256", "sha1", "sha384", "sha512", "sha224", "sha1"]);
             let clocks = [1_560_000_000i64, 1_590_000_000, 1_650_000_000, 1_790_000_000, 2_150_000_000, 2_220_000_000, 2_500_000_000];
             let n_clk = r.usize(2, 4);
             let picks: Vec<i64> = (0..n_clk).map(|_| *r.pick(&clocks)).collect();
@@ -82,7 +85,7 @@ impl Property for C36 {
                     return out;
                 }
             };
-            let signer = PkiSigner { inner, tsa, ocsp: None, work: work.clone(), log: log.clone() };
+            let signer = PkiSigner { inner, tsa, ocsp: None, work: work.clone(), log: log.clone(), tsa_digest };
             let ctx = Arc::new(sdk::make_context(&pki_settings()));
             c2pa::verif::set_clock(Some((wa + wb) / 2));
             let signed = sdk::guarded(|| -> Result<Vec<u8>, String> {
@@ -107,7 +110,7 @@ impl Property for C36 {
                     continue;
                 }
                 Ok(Err(e)) => {
-                    out.probe(&format!("sign-refused:{tsa_name}:{e}"));
+                    out.probe(&format!("sign-refused:{tsa_name}:{tsa_digest}:{e}"));
                     continue;
                 }
                 Ok(Ok(s)) => s,
@@ -137,6 +140,7 @@ impl Property for C36 {
             }
             let gen_time = token.as_ref().map(|t| t.2);
             let gen_in_w = gen_time.map(|g| g >= wa && g <= wb).unwrap_or(false);
+            out.probe(&format!("tsa-digest:{tsa_digest}"));
             out.probe(&format!("token:{}:{}", tsa_name, if token.is_none() { "absent" } else if usable { "usable" } else { "unusable" }));
             for clk in picks {
                 c2pa::verif::set_clock(Some(clk));
@@ -177,7 +181,7 @@ impl Property for C36 {
                 let time = rep.active_manifest().and_then(|m| m.get("signature_info")).and_then(|s| s.get("time")).and_then(|t| t.as_str()).map(|s| s.to_string());
                 let ts_fail = ["timeStamp.mismatch", "timeStamp.untrusted", "timeStamp.outsideValidity", "timeStamp.malformed"].iter().any(|c| rep.has_code(c));
                 let flip_at = match tsa { Tsa::Flipped(k) => token.as_ref().and_then(|t| pki::flip_position(&t.0, k)), _ => None };
-                let detail = json!({"flip_offset_in_response": flip_at, "response_len": token.as_ref().map(|t| t.0.len()), "certificate": ee, "window": [wa, wb], "peer": tsa_name, "token_usable_per_openssl": usable, "token_gen_time": gen_time,
+                let detail = json!({"flip_offset_in_response": flip_at, "response_len": token.as_ref().map(|t| t.0.len()), "certificate": ee, "window": [wa, wb], "peer": tsa_name, "tsa_signature_digest": tsa_digest, "token_usable_per_openssl": usable, "token_gen_time": gen_time,
                     "validation_clock": clk, "state": rep.brief(), "reported_signing_time": time,
                     "timestamp_codes": rep.codes.iter().filter(|c| c.contains("timeStamp")).map(|c| c.split('|').take(2).collect::<Vec<_>>().join("|")).collect::<Vec<_>>()});
                 // (1) unusable token is not used and is reported
